@@ -75,7 +75,7 @@ def run(tier, seed):
     meta = {
         "level": "model_checking",
         "rule": "every 3-task workflow over the four dependency kinds x work vectors and 4 parallel tasks x pooled/solo/mixed/dedicated/two-team layouts x task rules, "
-        "fixed-ID and automatic-task variants, and the single-task-component slice of the FAC family, each explored over all absence answers up to horizon H "
+        "fixed-ID and automatic-task variants, float-residue and 5e8-sized amounts, error_tol=0, mixed team wiring, a team given a task at a stop, and the single-task-component slice of the FAC family, each explored over all absence answers up to horizon H "
         "with <= D non-default answers; non-trivial = distinct allocation states with at least one non-automatic READY/WORKING claimant",
         "bounds": {"H": H, "D": D, "base_models": len(its)},
         "assumptions": [
